@@ -1,27 +1,66 @@
-    // ---- a packet buffer for the generic target `P` of try_load_data_into (contracts/c19_datagram) -----
-    // `P: BufMut + RecordFrame<Frame<Bytes>, Bytes>`; the real targets (PacketWriter of qbase / qconnection)
-    // need keys and headers.  This one is a plain byte array with a symbolic amount of space left, which
-    // implements only the three REQUIRED methods of `BufMut` (put_slice / put_bytes / put_u8.. are bytes'
-    // own default methods, verified as compiled code) and records what `record_frame` is told.
-    const CAP: usize = 12;
+    // ---- a packet target for the generic `P` of try_load_data_into (contracts/c19_datagram) ---------------
+    // `P: BufMut + RecordFrame<Frame<Bytes>, Bytes>`; the real targets (PacketWriter of qbase / qconnection) need
+    // keys and headers.  This one has a symbolic amount of space and RECORDS what is written into it instead of
+    // storing the bytes: the order of the writes, how many PADDING bytes came first, the bytes of every small
+    // write (frame type, length field), and for the payload write the identity (pointer, length) of the slice.
+    // "payload == the datagram, unchanged" is then pointer identity with the queued `Bytes` -- no byte copy, so
+    // payload lengths up to 70_000 (1-, 2- and 4-byte length fields) are covered.
+    // `put_u8/put_u16/put_u32/..` are bytes' own default methods (they call `put_slice`).
+    pub(crate) const MAXW: usize = 4;
     pub(crate) struct Pkt {
-        pub buf: [u8; CAP],
-        pub len: usize,
-        pub limit: usize,
-        pub frames: u32,
-        pub last: Option<(bool, u64, usize)>, // (encode_len, declared len, data.len()) of the last frame
+        pub space: usize,                 // remaining_mut()
+        pub written: usize,               // bytes written so far
+        pub pad: usize,                   // zero bytes written by put_bytes(0, n)
+        pub pad_calls: u32,
+        pub pad_after_write: bool,        // a put_bytes came after some put_slice
+        pub pad_nonzero: bool,            // put_bytes with a value other than 0
+        pub nwrites: usize,               // number of put_slice calls
+        pub wptr: [*const u8; MAXW],      // their source pointers,
+        pub wlen: [usize; MAXW],          // lengths,
+        pub wbytes: [[u8; 8]; MAXW],      // and contents (writes of <= 8 bytes only)
+        pub frames: u32,                  // record_frame calls
+        pub last: Option<(bool, u64, usize)>, // (encode_len, declared len, data.len()) of the last recorded frame
     }
     unsafe impl BufMut for Pkt {
         fn remaining_mut(&self) -> usize {
-            self.limit - self.len
+            self.space
         }
-        unsafe fn advance_mut(&mut self, cnt: usize) {
-            assert!(cnt <= self.limit - self.len, "C19.sup.pkt_model_advance_within_space");
-            self.len += cnt;
+        unsafe fn advance_mut(&mut self, _cnt: usize) {
+            unreachable!("C19.sup.pkt_model: every write goes through put_slice / put_bytes");
         }
         fn chunk_mut(&mut self) -> &mut bytes::buf::UninitSlice {
-            let (len, limit) = (self.len, self.limit);
-            bytes::buf::UninitSlice::new(&mut self.buf[len..limit])
+            unreachable!("C19.sup.pkt_model: every write goes through put_slice / put_bytes");
+        }
+        fn put_slice(&mut self, src: &[u8]) {
+            assert!(src.len() <= self.space, "C19.load.never_writes_beyond_packet_space");
+            assert!(self.nwrites < MAXW, "C19.sup.pkt_model_at_most_four_writes");
+            let k = self.nwrites;
+            self.wptr[k] = src.as_ptr();
+            self.wlen[k] = src.len();
+            // contents of small writes (unrolled: no loop for the verifier)
+            let n = src.len();
+            if n <= 8 {
+                if n > 0 { self.wbytes[k][0] = src[0]; }
+                if n > 1 { self.wbytes[k][1] = src[1]; }
+                if n > 2 { self.wbytes[k][2] = src[2]; }
+                if n > 3 { self.wbytes[k][3] = src[3]; }
+                if n > 4 { self.wbytes[k][4] = src[4]; }
+                if n > 5 { self.wbytes[k][5] = src[5]; }
+                if n > 6 { self.wbytes[k][6] = src[6]; }
+                if n > 7 { self.wbytes[k][7] = src[7]; }
+            }
+            self.nwrites += 1;
+            self.space -= src.len();
+            self.written += src.len();
+        }
+        fn put_bytes(&mut self, val: u8, cnt: usize) {
+            assert!(cnt <= self.space, "C19.load.never_writes_beyond_packet_space");
+            self.pad_calls += 1;
+            self.pad_after_write |= self.nwrites > 0;
+            self.pad_nonzero |= val != 0 && cnt > 0;
+            self.pad += cnt;
+            self.space -= cnt;
+            self.written += cnt;
         }
     }
     impl qbase::packet::RecordFrame<qbase::frame::Frame<Bytes>, Bytes> for Pkt {
@@ -33,11 +72,20 @@
         }
     }
     impl Pkt {
-        /// a packet with `used` bytes already written and room up to `limit` (both symbolic)
-        pub fn any() -> Pkt {
-            let len: usize = kani::any();
-            let limit: usize = kani::any();
-            kani::assume(len <= limit && limit <= CAP);
-            Pkt { buf: [0xEE; CAP], len, limit, frames: 0, last: None }
+        pub fn with_space(space: usize) -> Pkt {
+            Pkt {
+                space,
+                written: 0,
+                pad: 0,
+                pad_calls: 0,
+                pad_after_write: false,
+                pad_nonzero: false,
+                nwrites: 0,
+                wptr: [core::ptr::null(); MAXW],
+                wlen: [0; MAXW],
+                wbytes: [[0; 8]; MAXW],
+                frames: 0,
+                last: None,
+            }
         }
     }
